@@ -35,6 +35,177 @@ def enum_variants(src, name):
         out.append((m2.group(1), bool(m2.group(2))))
     return out
 
+def paren_end(src, i):
+    """src[i] == '(' -> index just after the matching ')'."""
+    d = 0
+    for j in range(i, len(src)):
+        if src[j] in '([{': d += 1
+        elif src[j] in ')]}':
+            d -= 1
+            if d == 0: return j + 1
+    raise TranslateError("unbalanced parenthesis")
+
+def split_top(s):
+    out, d, cur = [], 0, ''
+    for c in s:
+        if c in '([{': d += 1
+        if c in ')]}': d -= 1
+        if c == ',' and d == 0: out.append(cur.strip()); cur = ''
+        else: cur += c
+    if cur.strip(): out.append(cur.strip())
+    return out
+
+BBU_EXITS = ['establishment', 'errUnconfirmed', 'errFundingTimedOut', 'errSpliceConflict', 'splice', 'plain']
+
+def gen_exit_census(L, ch, cm, mon, b, em):
+    """C08 (seeded C08-r4): WHAT every exit of FundedChannel::do_best_block_updated returns in the timed-out-HTLC
+    position, and that everything between the holding-cell scan and ChannelManager::fail_htlc_backwards_internal
+    hands the list on unchanged. `b` = comment-stripped body of do_best_block_updated."""
+    # --- the scan: a pushed HTLC leaves the holding cell, everything else stays ---------------------------------
+    if not re.search(r'self\.context\.holding_cell_htlc_updates\.retain\(\|htlc_update\| \{\s*match htlc_update \{\s*'
+                     r'&HTLCUpdateAwaitingACK::AddHTLC \{ ref payment_hash, ref source, ref cltv_expiry, \.\. \} => \{\s*'
+                     r'if \*cltv_expiry (<=|<|>=|>) unforwarded_htlc_cltv_limit \{\s*'
+                     r'timed_out_htlcs\.push\(\(source\.clone\(\), payment_hash\.clone\(\)\)\);\s*false\s*\} else \{ true \}\s*\},\s*'
+                     r'_ => true\s*\}\s*\}\);', b):
+        raise TranslateError("holding-cell scan of do_best_block_updated changed shape (retain/push/false/true)")
+    scan_end = b.index('timed_out_htlcs.push')
+    if not re.match(r'\{\s*let mut timed_out_htlcs = Vec::new\(\);', b):
+        raise TranslateError("do_best_block_updated no longer starts with `let mut timed_out_htlcs = Vec::new();`")
+    # --- every exit after the scan ------------------------------------------------------------------------------
+    exits = []  # (kind, carries, text)
+    def classify(pos, expr):
+        e = ' '.join(expr.split())
+        if e.startswith('Ok(('):
+            inner = e[len('Ok(('):-2]
+            comps = split_top(inner)
+            if len(comps) != 3: raise TranslateError("exit of do_best_block_updated is not a 3-tuple: %s" % e[:80])
+            if comps[0].startswith('Some(FundingConfirmedMessage::Establishment('): kind = 'establishment'
+            elif comps[0].startswith('Some(FundingConfirmedMessage::Splice('): kind = 'splice'
+            elif comps[0] == 'None': kind = 'plain'
+            else: raise TranslateError("unknown Ok exit of do_best_block_updated: %s" % comps[0][:60])
+            return (kind, comps[1] == 'timed_out_htlcs', comps[1])
+        if e.startswith('Err('):
+            ctx = b[max(0, pos - 400):pos] + e
+            if 'FundingTimedOut' in e: kind = 'errFundingTimedOut'
+            elif 'ProcessingError' in e and 'un-confirmed' in ctx: kind = 'errUnconfirmed'
+            elif 'ProcessingError' in e and 'another pending funding' in ctx: kind = 'errSpliceConflict'
+            else: raise TranslateError("unknown Err exit of do_best_block_updated: %s" % e[:80])
+            return (kind, False, '-')
+        raise TranslateError("unrecognised exit of do_best_block_updated: %s" % e[:80])
+    for m in re.finditer(r'\breturn\b\s*', b):
+        if m.start() < scan_end: raise TranslateError("do_best_block_updated returns before/inside the holding-cell scan")
+        k = m.end()
+        if b[k:k + 3] not in ('Ok(', 'Err'): raise TranslateError("unrecognised return in do_best_block_updated: %r" % b[k:k + 40])
+        j = paren_end(b, b.index('(', k))
+        if b[j:j + 1] != ';': raise TranslateError("return expression of do_best_block_updated not terminated by `;`")
+        exits.append(classify(m.start(), b[k:j]))
+    tail = b[b.rindex(';') + 1:].strip()
+    if not tail.endswith('}'): raise TranslateError("do_best_block_updated tail not recognised")
+    exits.append(classify(len(b), tail[:-1].strip()))
+    if '?' in re.sub(r'"[^"]*"', '', b[scan_end:]):
+        raise TranslateError("do_best_block_updated has a `?` exit after the holding-cell scan")
+    kinds = [k for k, _, _ in exits]
+    if kinds != BBU_EXITS:
+        raise TranslateError("exits of do_best_block_updated after the holding-cell scan changed: %s" % kinds)
+    n_named = len(re.findall(r'\btimed_out_htlcs\b', b))
+    if n_named != 2 + sum(1 for _, c, _ in exits if c):
+        raise TranslateError("`timed_out_htlcs` is used in do_best_block_updated outside its declaration, the scan push and the exits")
+    L.append('/-- the exits of channel.rs FundedChannel::do_best_block_updated, all AFTER the holding-cell scan, in source order -/')
+    L.append('inductive BbuExit where')
+    for k in BBU_EXITS: L.append('  | %s' % k)
+    L.append('  deriving DecidableEq, Repr, Inhabited')
+    L.append('')
+    L.append('def BbuExit.all : List BbuExit := [%s]' % ', '.join('.' + k for k in BBU_EXITS))
+    L.append('def BbuExit.name : BbuExit → String')
+    for k in BBU_EXITS: L.append('  | .%s => "%s"' % (k, k))
+    L.append('/-- `Ok(..)` exits (the channel lives on); the `Err(ClosureReason)` exits close the channel -/')
+    L.append('def BbuExit.isOk : BbuExit → Bool')
+    for k in BBU_EXITS: L.append('  | .%s => %s' % (k, 'false' if k.startswith('err') else 'true'))
+    L.append('/-- TRANSLATED per exit: `true` iff the second tuple component it returns is literally `timed_out_htlcs`')
+    L.append('    (' + '; '.join('%s: `%s`' % (k, t) for k, _, t in exits) + ') -/')
+    L.append('def BbuExit.returnsTimedOut : BbuExit → Bool')
+    for k, c, _ in exits: L.append('  | .%s => %s' % (k, 'true' if c else 'false'))
+    L.append('')
+    # --- FundedChannel::best_block_updated is a bare call of do_best_block_updated ---------------------------------
+    _, _, bb = find_fn(ch, 'best_block_updated')
+    bbs = ' '.join(strip_comments(bb).split())
+    if not re.fullmatch(r'\{ self\.do_best_block_updated\( height, highest_header_time, Some\(\(chain_hash, node_signer, user_config\)\), logger, \) \}', bbs):
+        raise TranslateError("FundedChannel::best_block_updated is no longer a bare call of do_best_block_updated")
+    # --- transactions_confirmed (channel.rs) never touches the holding cell, transaction_unconfirmed asserts the list empty
+    _, _, tcb = find_fn(ch, 'transactions_confirmed')
+    if 'holding_cell_htlc_updates' in tcb or 'timed_out' in tcb:
+        raise TranslateError("FundedChannel::transactions_confirmed now touches the holding cell / timed-out HTLCs")
+    _, _, tub = find_fn(ch, 'transaction_unconfirmed')
+    if not re.search(r'assert!\(timed_out_htlcs\.is_empty\(\)', tub):
+        raise TranslateError("FundedChannel::transaction_unconfirmed no longer asserts timed_out_htlcs.is_empty()")
+    # --- ChannelManager: every closure given to do_chain_event ends in the bare channel call --------------------------
+    cms = strip_comments(cm)
+    calls = [m.end() - 1 for m in re.finditer(r'\bchannel\.best_block_updated\(', cms)]
+    if len(calls) != 3: raise TranslateError("expected 3 ChannelManager call sites of channel.best_block_updated, got %d" % len(calls))
+    for i in calls:
+        j = paren_end(cms, i)
+        if not re.match(r'\s*\}', cms[j:j + 12]):
+            raise TranslateError("a ChannelManager call of channel.best_block_updated is post-processed: %r" % cms[j:j + 30])
+    if not re.search(r'channel\.transactions_confirmed\((?:[^;]*?)\)\s*\.map\(\|\(a, b\)\| \(a, Vec::new\(\), b\)\)\);', cms):
+        raise TranslateError("ChannelManager::transactions_confirmed wrapper around channel.transactions_confirmed changed")
+    # --- do_chain_event: the list is drained first thing on Ok, and failed backwards at the end ---------------------------
+    m = re.search(r'fn do_chain_event<.*?>\(\s*&self, height_opt: Option<u32>, f: FN,\s*\) \{', cm, re.S)
+    if not m or m.end() - m.start() > 600: raise TranslateError("fn do_chain_event not found")
+    d = strip_comments(cm[m.end() - 1: match_brace(cm, m.end() - 1)])
+    m = re.search(r'let res = f\(funded_channel\);\s*if let Ok\(\(funding_confirmed_opt, mut timed_out_pending_htlcs, announcement_sigs\)\) = res \{\s*'
+                  r'for \(source, payment_hash\) in timed_out_pending_htlcs\.drain\(\.\.\) \{\s*'
+                  r'let reason = LocalHTLCFailureReason::(\w+);\s*'
+                  r'let data = self\.get_htlc_inbound_temp_fail_data\(reason\);\s*'
+                  r'let failure_type = source\.failure_type\(funded_channel\.context\.get_counterparty_node_id\(\), \*channel_id\);\s*'
+                  r'timed_out_htlcs\.push\(\(source, payment_hash, HTLCFailReason::reason\(reason, data\), failure_type\)\);\s*\}', d)
+    if not m: raise TranslateError("do_chain_event no longer drains the channel's timed-out HTLCs first thing on Ok")
+    reason = m.group(1)
+    if not re.search(r'for \(source, payment_hash, reason, destination\) in timed_out_htlcs\.drain\(\.\.\) \{\s*'
+                     r'self\.fail_htlc_backwards_internal\(&source, &payment_hash, &reason, destination, None\);\s*\}\s*\}\s*$', d):
+        raise TranslateError("do_chain_event no longer ends by failing every collected timed-out HTLC backwards")
+    rets = re.findall(r'\breturn\b[^;]*;', d)
+    if any(r.split() != ['return', 'false;'] for r in rets):
+        raise TranslateError("do_chain_event has an early return: %s" % rets)
+    if len(re.findall(r'\btimed_out_htlcs\b', d)) != 6:
+        raise TranslateError("do_chain_event uses `timed_out_htlcs` at a new place (expected: decl, holding cell, claimable, trampoline, intercepted, final drain)")
+    L.append('/-- do_chain_event: reason with which the HTLCs returned by the channel (holding-cell timeouts) are failed backwards;')
+    L.append('    pinned: they are drained into the fail list first thing on `Ok`, and the function ends by calling')
+    L.append('    fail_htlc_backwards_internal on every collected entry, with no early return in between -/')
+    L.append('def chainEventHoldingCellReason : FailReason := .%s' % lc(reason))
+    m = re.search(r'intercepted_htlcs\.retain\(\|_, htlc\| \{\s*if (height (?:>=|>|<=|<) htlc\.forward_info\.outgoing_cltv_value - \w+) \{', d)
+    if not m: raise TranslateError("intercepted-HTLC timeout test of do_chain_event not found")
+    L.append('/-- mirrors do_chain_event: an intercepted HTLC is failed back iff `%s` -/' % m.group(1))
+    L.append('def interceptTimedOut (height outgoing_cltv_value : Nat) : Bool :=')
+    L.append('  ' + em.e(parse_expr(m.group(1).replace('htlc.forward_info.outgoing_cltv_value', 'outgoing_cltv_value'))))
+    if not re.search(r'let htlc_timed_out = htlc\.mpp_part\.check_onchain_timeout\(height\);', d):
+        raise TranslateError("claimable-HTLC timeout of do_chain_event no longer uses check_onchain_timeout(height)")
+    L.append('')
+    # --- ChannelMonitorImpl::best_block_updated: which announced heights are processed at all ---------------------------
+    _, _, mb = find_fn(mon, 'best_block_updated', after='fn block_connected<B: BroadcasterInterface, F: FeeEstimator, L: Logger>(\n\t\t&mut self, header: &Header, txdata')
+    ms = strip_comments(mb)
+    m = re.search(r'if (height (?:>|>=) self\.best_block\.height) \{\s*self\.best_block\.update_for_new_tip\(block_hash, height\);\s*(?:log_trace![^;]*;\s*)?self\.block_confirmed\(height,', ms)
+    if not m: raise TranslateError("ChannelMonitorImpl::best_block_updated height test not found")
+    L.append('/-- mirrors ChannelMonitorImpl::best_block_updated: block_confirmed runs iff `%s` (a re-announced or lower height is not re-processed) -/' % m.group(1))
+    L.append('def monitorProcessesHeight (height best_height : Nat) : Bool :=')
+    L.append('  ' + em.e(parse_expr(m.group(1).replace('self.best_block.height', 'best_height'))))
+    # block_confirmed: order scan -> matured events -> pre-emptive fail-back, the latter only once no further updates are allowed
+    _, _, bc = find_fn(mon, 'block_confirmed')
+    bcs = strip_comments(bc)
+    i1 = bcs.find('self.should_broadcast_holder_commitment_txn(logger)'); i2 = bcs.find('for entry in onchain_events_reaching_threshold_conf')
+    i3 = bcs.find('if self.no_further_updates_allowed() {'); i4 = bcs.find('let max_expiry_height')
+    if not (0 <= i1 < i2 < i3 < i4): raise TranslateError("block_confirmed order (scan, matured events, guarded pre-emptive fail-back) changed")
+    # onchaintx: a timelocked claim waits exactly while locktime > height and is released up to and including cur_height
+    oc = strip_comments(rd('lightning/src/chain/onchaintx.rs'))
+    m = re.search(r'let package_locktime = req\.package_locktime\(cur_height\);\s*if (package_locktime (?:>|>=) cur_height) \{', oc)
+    if not (m and re.search(r'self\.locktimed_packages\.split_off\(&\(cur_height \+ 1\)\)', oc)):
+        raise TranslateError("onchaintx timelocked-claim scheduling (package_locktime > cur_height / split_off(cur_height + 1)) changed")
+    L.append('/-- mirrors OnchainTxHandler::update_claims_view_from_requests: a claim is held back iff `%s`; held-back packages with')
+    L.append('    locktime ≤ cur_height are released (`split_off(&(cur_height + 1))`) -/' % ())
+    L[-2] = L[-2] % m.group(1)
+    L.append('def claimHeldBack (cur_height package_locktime : Nat) : Bool :=')
+    L.append('  ' + em.e(parse_expr(m.group(1))))
+    L.append('')
+
 def main(out_path):
     L = ['/- GENERATED by tools/gen_timing.py from the Rust sources — do not edit. -/',
          'import LdkModel.Prim.Arith', 'import LdkModel.Generated.Consts', 'namespace Ldk', '']
@@ -184,6 +355,7 @@ def main(out_path):
     L.append('def holdingCellTimedOut (height cltv_expiry : Nat) : Bool :=')
     L.append('  ' + em.e(parse_expr('cltv_expiry %s (%s)' % (m2.group(1), m1.group(1)))))
     L.append('')
+    gen_exit_census(L, ch, cm, mon, b, em)
     L.append('end Ldk')
     text = '\n'.join(L) + '\n'
     old = open(out_path).read() if os.path.exists(out_path) else None
